@@ -33,6 +33,7 @@ import PV.Driver.RewriteTableOps
 import PV.Driver.C18TableOps
 import PV.Driver.StrTableOps
 import PV.Driver.AnalysisHistOps
+import PV.Driver.OpsSyntaxOps
 /-
   Driver operations: one request S-expression in, one reply S-expression out.
 -/
@@ -238,6 +239,7 @@ def handlers : List (Sexp → Option Sexp) :=
    , handleC18Table
    , handleStrTable
    , handleAnalysisHist
+   , handleOpsSyntax
    -- HANDLERS
   ]
 
